@@ -105,14 +105,24 @@ var tmpCounter uint64
 
 func (fs DirFs) AtomicCreate(dir, fname string, data []byte) {
 	// The staging file is private to this call (concurrent calls, also for the
-	// same name in different directories, must not share it) and is truncated
-	// in case an interrupted earlier call left one behind.
-	tmpFile := fmt.Sprintf(".%d-%d.tmp", os.Getpid(),
-		atomic.AddUint64(&tmpCounter, 1))
-	fd, err := unix.Openat(fs.rootFd, tmpFile,
-		unix.O_CREAT|unix.O_TRUNC|unix.O_WRONLY, 0644)
-	if err != nil {
-		panic(err)
+	// same name in different directories, must not share it) and is created
+	// afresh: a name that is taken, by what an interrupted earlier call left
+	// behind or by a file or directory of the caller, is skipped.
+	var tmpFile string
+	var fd int
+	var err error
+	for {
+		tmpFile = fmt.Sprintf(".%d-%d.tmp", os.Getpid(),
+			atomic.AddUint64(&tmpCounter, 1))
+		fd, err = unix.Openat(fs.rootFd, tmpFile,
+			unix.O_CREAT|unix.O_EXCL|unix.O_WRONLY, 0644)
+		if err == unix.EEXIST {
+			continue
+		}
+		if err != nil {
+			panic(err)
+		}
+		break
 	}
 	defer unix.Close(fd)
 	for len(data) > 0 {
